@@ -138,7 +138,7 @@ def trace_part(rep: C.Report, wd: str, tier: str, rnd: random.Random, extra_msgs
         events.append(codec_event(m))
     for e in events:
         rep.case((e["m"]["op"], str(e["packed"])[:400]))
-    verdicts, gen, dist = C.validate_traces("CodecTrace", "CodecTrace.cfg", events, wd, tag="codec", timeout=1500)
+    verdicts, gen, dist = C.validate_traces("CodecTrace", "CodecTrace.cfg", events, wd, tag="codec", timeout=1500, xss="512m")
     rep.states += dist
     rep.transitions += gen
     rep.traces += len(events)
